@@ -64,8 +64,10 @@ def gen_case(rng):
     if lay < 0.15 and body:
         ind = rng.choice(["    ", "  ", "\t"])
         body = "\n".join(ind + l if l.strip() else l for l in body.split("\n"))
-    elif lay < 0.25 and body:
+    elif lay < 0.22 and body:
         body = rng.choice(["\n", "\n\n", "  \n"]) + body
+    elif lay < 0.25 and body:
+        body = rng.choice(["    ", "\t", "  \n    "]) + body          # only the first line indented: an indented code block opens the body
     elif lay < 0.30 and body:
         body = body + rng.choice(["\n\n\n", "  ", "\n  \n"])
     return {"blanks": blanks, "open": open_l, "lines": lines, "close": close_l, "eol": eol, "body": body, "closed": closed}
